@@ -8,7 +8,6 @@ from props import c01
 
 ID = "C16"
 PROP_FILE = "Props/C16.v"
-THEOREMS = ["C16_equiv", "C16_accepts", "C16_keys_distinct", "C16_nonvacuous"]
 RULE = ("every definition is rendered twice in one crate built with strum's `phf` feature: as written and with #[strum(use_phf)] "
         "added. Definitions: field-less enums (optionally one #[strum(default)] Other(String) variant) with spellings that are "
         "mixed-case, all-lower, all-upper, caseless (digits, punctuation, non-ASCII) and empty, case-insensitive at enum or variant "
